@@ -22,7 +22,7 @@ THEOREMS_1 = ["C02_ext_ref_accept", "C02_ext_ref_reject", "C02_model_ref_accept"
               "C02_aasd130", "C02_string_types", "C02_version_type", "C02_revision_type", "C02_lang_string_texts",
               "C02_string_errors", "C02_id_short", "C02_id_short_errors", "C02_string_example", "C02_int_ranges"]
 THEOREMS_2 = ["C02_list_ctor", "C02_list_accept_wf", "C02_list_reject_unchanged", "C02_list_history", "C02_list_example",
-              "C02_sem_contained_example"]
+              "C02_sem_contained_example", "C02_list_xslice_example"]
 THEOREMS_3 = ["C02_adm_ctor", "C02_adm_accept_wf", "C02_adm_reject_unchanged", "C02_adm_history", "C02_adm_example",
               "C02_bee_ctor", "C02_bee_accept_wf", "C02_bee_reject_unchanged", "C02_bee_history", "C02_bee_example",
               "C02_category_accept_wf", "C02_category_reject", "C02_category_text_refuted", "C02_category_text_partial",
